@@ -399,7 +399,7 @@ fn panic_msg(e: Box<dyn std::any::Any + Send>) -> String {
 /// run `f` on its own thread (large stack) with a wall-clock limit; a hung thread is leaked
 pub fn guarded<T: Send + 'static>(secs: u64, f: impl FnOnce() -> T + Send + 'static) -> Outcome<T> {
     let (tx, rx) = mpsc::channel();
-    let spawned = std::thread::Builder::new().stack_size(512 << 20).spawn(move || {
+    let spawned = std::thread::Builder::new().stack_size(64 << 20).spawn(move || {
         let r = catch_unwind(AssertUnwindSafe(f));
         let _ = tx.send(r);
     });
@@ -461,7 +461,7 @@ fn tokens_of(tree: &ParseTree) -> S {
 }
 
 /// format / validate / compile stages, each with its own panic guard
-fn after_parse(tree: &ParseTree, diags: &DiagnosticSet) -> Vec<S> {
+fn after_parse(tree: &ParseTree, diags: &DiagnosticSet, use_map: bool) -> Vec<S> {
     let mut f = vec![
         S::k1("toks", tokens_of(tree)),
         S::k1("textlen", S::usize(tree.root().text_len())),
@@ -470,8 +470,11 @@ fn after_parse(tree: &ParseTree, diags: &DiagnosticSet) -> Vec<S> {
     ];
     let fmt = catch_unwind(AssertUnwindSafe(|| diags.display().to_string().len()));
     f.push(S::k1("fmt", match fmt { Ok(_) => S::atom("ok"), Err(e) => S::kv("panic", [S::str(&panic_msg(e))]) }));
-    if diags.has_errors() {
-        f.push(S::k1("validate", S::atom("skipped")));
+    // A tree parsed without a glyph map still contains unresolved `GlyphNameOrRange` tokens, which the typed AST
+    // (and therefore validation) does not accept: validating such a tree is outside the API contract
+    // ("If you are not compiling the parse results, you can omit it"), so it is not attempted.
+    if diags.has_errors() || !use_map {
+        f.push(S::k1("validate", S::atom(if diags.has_errors() { "skipped" } else { "nomap" })));
         f.push(S::k1("vdiags", S::list([])));
         f.push(S::k1("compile", S::atom("skipped")));
         return f;
@@ -527,16 +530,49 @@ pub fn parse_in_memory(text: &str, use_map: bool) -> (ParseTree, DiagnosticSet) 
     .unwrap()
 }
 
-pub fn lex_impl(src: &str, use_map: bool) -> S {
+/// wall-clock limit for one case; a parser that spins (it then also allocates diagnostics without bound) is
+/// reported as `hang`, and the process is replaced (see `run_guarded_cases`) so the spinning thread dies
+const CASE_TIMEOUT_S: u64 = 15;
+
+pub fn lex_impl(src: &str, use_map: bool) -> (S, bool) {
     let s = src.to_string();
-    let out = guarded(60, move || {
+    let out = guarded(CASE_TIMEOUT_S, move || {
         let (tree, diags) = parse_in_memory(&s, use_map);
-        after_parse(&tree, &diags)
+        after_parse(&tree, &diags, use_map)
     });
     match out {
-        Outcome::Done(f) => S::kv("impl", [S::k1("status", S::atom("ok"))].into_iter().chain(f)),
-        Outcome::Panic(m) => S::kv("impl", [S::k1("status", S::atom("panic")), S::k1("panicmsg", S::str(&m))]),
-        Outcome::Hang => S::kv("impl", [S::k1("status", S::atom("hang"))]),
+        Outcome::Done(f) => (S::kv("impl", [S::k1("status", S::atom("ok"))].into_iter().chain(f)), false),
+        Outcome::Panic(m) => (S::kv("impl", [S::k1("status", S::atom("panic")), S::k1("panicmsg", S::str(&m))]), false),
+        Outcome::Hang => (S::kv("impl", [S::k1("status", S::atom("hang"))]), true),
+    }
+}
+
+/// Like `crate::run_cases`, but a case may report that it left a hung worker thread behind; the rest of the
+/// range is then produced by a fresh process (same binary, same seed) and this one exits.
+fn run_guarded_cases(stream: &str, args: &Args, f: impl Fn(usize) -> (Vec<S>, bool)) {
+    use std::io::Write;
+    std::panic::set_hook(Box::new(|_| {}));
+    let stdout = std::io::stdout();
+    let end = args.from + args.n;
+    for i in args.from..end {
+        let (fields, hung) = f(i);
+        {
+            let mut out = stdout.lock();
+            writeln!(out, "{}", crate::sexp::case_line(stream, i, fields)).unwrap();
+            out.flush().unwrap();
+        }
+        if hung {
+            let code = if i + 1 < end {
+                std::process::Command::new(std::env::current_exe().unwrap())
+                    .args([stream, "--seed", &args.seed.to_string(), "--from", &(i + 1).to_string(), "--n", &(end - i - 1).to_string()])
+                    .status()
+                    .map(|s| s.code().unwrap_or(1))
+                    .unwrap_or(1)
+            } else {
+                0
+            };
+            std::process::exit(code);
+        }
     }
 }
 
@@ -552,19 +588,27 @@ pub fn run_lex(args: &Args) {
             String::from_utf8(bytes).expect("utf8")
         };
         let use_map = args.rest.iter().any(|a| a == "--map");
-        let f = vec![S::k1("src", S::str(&src)), S::k1("gen", S::atom("given")), S::k1("gm", S::usize(use_map as usize)), lex_impl(&src, use_map)];
+        let (imp, hung) = lex_impl(&src, use_map);
+        let f = vec![S::k1("src", S::str(&src)), S::k1("gen", S::atom("given")), S::k1("gm", S::usize(use_map as usize)), imp];
         println!("{}", crate::sexp::case_line("c13lex", 0, f));
+        if hung {
+            std::process::exit(0);
+        }
         return;
     }
-    crate::run_cases("c13lex", args, move |i| {
+    run_guarded_cases("c13lex", args, move |i| {
         let mut rng = Rng::for_case(seed, "c13lex", i);
         let case = gen_lex_case(&mut rng, i);
-        vec![
-            S::k1("src", S::str(&case.src)),
-            S::k1("gen", S::atom(case.genr.clone())),
-            S::k1("gm", S::usize(case.use_map as usize)),
-            lex_impl(&case.src, case.use_map),
-        ]
+        let (imp, hung) = lex_impl(&case.src, case.use_map);
+        (
+            vec![
+                S::k1("src", S::str(&case.src)),
+                S::k1("gen", S::atom(case.genr.clone())),
+                S::k1("gm", S::usize(case.use_map as usize)),
+                imp,
+            ],
+            hung,
+        )
     });
 }
 
@@ -667,17 +711,17 @@ fn file_text(case: &IncCase, i: usize) -> String {
     s
 }
 
-pub fn inc_impl(case: &IncCase) -> S {
+pub fn inc_impl(case: &IncCase) -> (S, bool) {
     let dir = match tempfile::Builder::new().prefix("c13inc").tempdir() {
         Ok(d) => d,
-        Err(_) => return S::kv("impl", [S::k1("status", S::atom("tmpdir-failed"))]),
+        Err(_) => return (S::kv("impl", [S::k1("status", S::atom("tmpdir-failed"))]), false),
     };
     let n = case.edges.len();
     for i in 0..n {
         std::fs::write(dir.path().join(file_name(i)), file_text(case, i)).unwrap();
     }
     let root = dir.path().join(file_name(0));
-    let out = guarded(60, move || {
+    let out = guarded(CASE_TIMEOUT_S, move || {
         match parse_root_file(root, None, None) {
             Err(_) => vec![S::k1("result", S::atom("loaderr"))],
             Ok((tree, diags)) => {
@@ -695,26 +739,41 @@ pub fn inc_impl(case: &IncCase) -> S {
         }
     });
     let r = match out {
-        Outcome::Done(f) => S::kv("impl", [S::k1("status", S::atom("ok"))].into_iter().chain(f)),
-        Outcome::Panic(m) => S::kv("impl", [S::k1("status", S::atom("panic")), S::k1("panicmsg", S::str(&m))]),
-        Outcome::Hang => S::kv("impl", [S::k1("status", S::atom("hang"))]),
+        Outcome::Done(f) => (S::kv("impl", [S::k1("status", S::atom("ok"))].into_iter().chain(f)), false),
+        Outcome::Panic(m) => (S::kv("impl", [S::k1("status", S::atom("panic")), S::k1("panicmsg", S::str(&m))]), false),
+        Outcome::Hang => (S::kv("impl", [S::k1("status", S::atom("hang"))]), true),
     };
-    let _ = dir.close(); // remove the temp dir
+    let _ = dir.close(); // remove the temp dir (also after a hang: the stuck thread only holds file contents)
     r
 }
 
 pub fn run_inc(args: &Args) {
     let seed = args.seed;
-    crate::run_cases("c13inc", args, move |i| {
+    run_guarded_cases("c13inc", args, move |i| {
         let mut rng = Rng::for_case(seed, "c13inc", i);
         let case = gen_inc_case(&mut rng);
-        let lens: Vec<S> = (0..case.edges.len()).map(|i| S::usize(file_text(&case, i).len())).collect();
-        vec![
+        let texts: Vec<String> = (0..case.edges.len()).map(|i| file_text(&case, i)).collect();
+        let lens: Vec<S> = texts.iter().map(|t| S::usize(t.len())).collect();
+        // byte range of every include statement (`include(...);`), per file, in statement order
+        let stmts = texts.iter().map(|t| {
+            let mut v = vec![];
+            let mut from = 0;
+            while let Some(k) = t[from..].find("include(") {
+                let start = from + k;
+                let end = start + t[start..].find(';').map(|e| e + 1).unwrap_or(t.len() - start);
+                v.push(S::list([S::usize(start), S::usize(end)]));
+                from = end;
+            }
+            S::list(v)
+        });
+        let (imp, hung) = inc_impl(&case);
+        (vec![
             S::k1("shape", S::atom(case.shape)),
             S::k1("n", S::usize(case.edges.len())),
             S::k1("edges", S::list(case.edges.iter().map(|es| S::list(es.iter().map(|t| S::usize(*t)))))),
             S::k1("lens", S::list(lens)),
-            inc_impl(&case),
-        ]
+            S::k1("stmts", S::list(stmts)),
+            imp,
+        ], hung)
     });
 }
